@@ -43,7 +43,7 @@ class TokenList:
 _parentheses = {"(": ")", "[": "]"}
 _delimiters_front = set(_parentheses.keys())
 _delimiters_back = set(_parentheses.values())
-_nary_ops = ["->", "|", ",", "+", " "]
+_nary_ops = ["->", ",", "+", " "]
 _ellipsis = "..."
 _axis_name = re.compile(r"[a-zA-Z_][a-zA-Z0-9_]*")
 _literals = _nary_ops + list(_delimiters_front) + list(_delimiters_back) + [_ellipsis]
